@@ -85,7 +85,7 @@ P = {
   tech=TECH + " (tie G3 data, tie H on mutated documents)", ref="DESIGN.md 6 C16"),
  "C17": dict(
   text="Full: uniqueness, round trip, parent = key>>2, not-encodable flag and children keys are theorems for ALL 2^64 address pairs about the programs regenerated from morton.go on every run (bexpr reflection: lor-linearity shape check + unit-vector sweep + extension lemma).",
-  note="Trusted: Coq kernel + vm_compute; translator G1 (Go AST -> bexpr, uint ops modulo 2^64); harness cross-checks ToZ/FromZ against the model on ~10^4 inputs per run. No axioms.",
+  note="Trusted: Coq kernel + vm_compute; translator G1 (Go AST -> bexpr, uint ops modulo 2^64) and G2 for pointindex.getQuadrantZs (gen/ChildrenGen.v, proved equal to the model's getQuadrantZs for every key incl. the MustToZ panic: C17_source_tie_children); harness cross-checks ToZ/FromZ against the model on ~10^4 inputs per run. No axioms.",
   tech="machine-checked proof in Coq over code regenerated from source (reflection + induction), correspondence by vm_compute", ref="DESIGN.md 6 C17"),
 }
 
